@@ -846,6 +846,67 @@ func c04DoSaveSteps(p *Pkg) []string {
 	return steps
 }
 
+// c04RsmSyncGuards: rsm.StateMachine.sync(): the returns that precede the call of the user
+// state machine's Sync() (s.sm.Sync()). Known: the replica is not an on-disk state machine.
+func c04RsmSyncGuards(p *Pkg) []string {
+	fn := p.Func("StateMachine", "sync")
+	var guards []string
+	for _, st := range fn.Body.List {
+		callsSync := false
+		ast.Inspect(st, func(n ast.Node) bool {
+			if c, ok := n.(*ast.CallExpr); ok {
+				if c04ExprString(c.Fun) == "s.sm.Sync" {
+					callsSync = true
+				}
+			}
+			return true
+		})
+		if callsSync {
+			return guards
+		}
+		is, ok := st.(*ast.IfStmt)
+		if !ok {
+			continue
+		}
+		ret := false
+		ast.Inspect(is.Body, func(n ast.Node) bool {
+			if _, ok := n.(*ast.ReturnStmt); ok {
+				ret = true
+			}
+			return true
+		})
+		if !ret {
+			continue
+		}
+		if c04ExprString(is.Cond) == "!s.OnDiskStateMachine(...)" {
+			guards = append(guards, "SgNotOnDisk")
+		} else {
+			guards = append(guards, "SgUnknown")
+		}
+	}
+	panic("StateMachine.sync: s.sm.Sync() call not found")
+}
+
+// c04ConcurrentSaveSteps: rsm.StateMachine.concurrentSave: prepare / sync / doSave order
+func c04ConcurrentSaveSteps(p *Pkg) []string {
+	fn := p.Func("StateMachine", "concurrentSave")
+	var steps []string
+	ast.Inspect(fn.Body, func(n ast.Node) bool {
+		if c, ok := n.(*ast.CallExpr); ok {
+			switch c04ExprString(c.Fun) {
+			case "s.prepare":
+				steps = append(steps, "CsPrepare")
+			case "s.sync":
+				steps = append(steps, "CsSync")
+			case "s.doSave":
+				steps = append(steps, "CsDoSave")
+			}
+		}
+		return true
+	})
+	return steps
+}
+
 func init() {
 	register(&Unit{Name: "C04", Imports: "From Coq Require Import Bool.", Facts: []Fact{
 		{Name: "stage vocabulary", Gen: func() string {
@@ -924,6 +985,14 @@ func init() {
 		{Name: "doSave steps", Gen: func() string {
 			return "Inductive sstep := SsSave | SsCommit | SsExportedReturn | SsRecord | SsCompactLog | SsSetIndex.\n" +
 				"Definition do_save_steps : list sstep := [" + strings.Join(c04DoSaveSteps(loadPkg(".")), "; ") + "].\n"
+		}},
+		// internal/rsm/statemachine.go: sync() and concurrentSave() of an on-disk state machine
+		{Name: "rsm sync / concurrentSave", Gen: func() string {
+			p := loadPkg("internal/rsm")
+			return "Inductive sguard := SgNotOnDisk | SgUnknown.\n" +
+				"Definition rsm_sync_guards : list sguard := [" + strings.Join(c04RsmSyncGuards(p), "; ") + "].\n" +
+				"Inductive csstep := CsPrepare | CsSync | CsDoSave.\n" +
+				"Definition rsm_concurrent_save_steps : list csstep := [" + strings.Join(c04ConcurrentSaveSteps(p), "; ") + "].\n"
 		}},
 		// internal/logdb/kv/pebble: every write batch is committed with Sync: true
 		{Name: "pebble write options", Gen: func() string {
